@@ -138,6 +138,38 @@ def check_schema(ri: int, ui: int) -> bool:
     return True
 
 
+KEYTYPES = ['UNIQUE_ID', 'INTEGER', 'STRING', 'REAL', 'BOOLEAN', 'unique_id', 'Sometype', 'inst_ref<A>', 'date', 'void', '']
+KEYVALS = ['"00000000-0000-0000-0000-000000000001"', '1', "'s'", '1.5', 'true', "''", '-1']
+
+
+def check_keytype(ti: int, tj: int, vi: int, named: bool) -> bool:
+    """
+    pre: 0 <= ti < len(KEYTYPES) and 0 <= tj < len(KEYTYPES) and 0 <= vi < len(KEYVALS)
+    post: POST(_)
+    """
+    # the REFERRING / REFERRED key attributes of an association declared with known, oddly spelled and unknown
+    # type names, rows present: whatever the loader thinks of it, only the documented exceptions escape
+    global LAST_DIFF
+    ti = cs(ti, 0, len(KEYTYPES) - 1); tj = cs(tj, 0, len(KEYTYPES) - 1); vi = cs(vi, 0, len(KEYVALS) - 1); named = True if named else False
+    ld = fresh_loader()
+    ld.statements = [
+        stmt(L.CreateClassStmt('A', [('Id', KEYTYPES[tj]), ('x', 'INTEGER')])),
+        stmt(L.CreateClassStmt('B', [('Id', 'UNIQUE_ID'), ('y', KEYTYPES[ti])])),
+        stmt(L.CreateAssociationStmt('R1', 'B', 'MC', ['y'], '', 'A', '1', ['Id'], '')),
+        stmt(L.CreateInstanceStmt('A', [KEYVALS[vi], '1'], ['Id', 'x'] if named else None)),
+        stmt(L.CreateInstanceStmt('B', ['"00000000-0000-0000-0000-000000000002"', KEYVALS[vi]], ['Id', 'y'] if named else None))]
+    try:
+        ld.build_metamodel()
+    except ALLOWED:
+        pass
+    except Exception as e:
+        case('keytype', ti, tj, vi, named)
+        LAST_DIFF = ('undocumented exception from build_metamodel', type(e).__name__, str(e)[:100], KEYTYPES[ti], KEYTYPES[tj], KEYVALS[vi])
+        return False
+    case('keytype', ti, tj, vi, named)
+    return True
+
+
 TEXTS = [
     ('ok', "CREATE TABLE A (Id UNIQUE_ID, x INTEGER);\nINSERT INTO A VALUES (1, 5);\n"),
     ('ok', "INSERT INTO A VALUES (2, 6);\n"),
